@@ -93,11 +93,15 @@ def main(argv=None) -> int:
             obs += [o for o in ro if pid in o.props]
         selftest = None
         if args.tier == "thorough" and not args.replay:
+            # checker self-test (variants + the committed patch corpora of this property).  It says something about the
+            # *checker*, never about the tree: its outcome cannot hide or replace the verdict computed above.  A failing
+            # variant is a broken checker (exit 2) only on the reference tree the variants were written against and only
+            # when the tree itself is clean; on a changed tree it is recorded as inconclusive.
             from . import selftest as st
+            from .known_funcs import REFERENCE_DIGEST
 
             selftest = st.run_for_property(pid, ctx)
-            if selftest.get("errors"):
-                raise AnalysisError("checker self-test failed: " + "; ".join(selftest["errors"][:6]))
+            selftest["tree_is_reference"] = st.tree_digest(ctx.root) == REFERENCE_DIGEST
     except Exception as e:  # noqa: BLE001
         from .model import AnalysisError as AE
 
@@ -166,6 +170,18 @@ def main(argv=None) -> int:
 
     for e in rule_errors:
         print(f"ANALYSIS-ERROR property={pid} {e}")
+    if selftest is not None:
+        print(f"  self-test: {selftest.get('breaking_fired')}/{selftest.get('breaking_total')} breaking variants reported, "
+              f"{selftest.get('preserving_silent')}/{selftest.get('preserving_total')} preserving variants silent, "
+              f"corpus: {selftest.get('corpus', {}).get('seeded_fired', 0)}/{selftest.get('corpus', {}).get('seeded_total', 0)} seeded changes reported, "
+              f"{selftest.get('corpus', {}).get('benign_silent', 0)}/{selftest.get('corpus', {}).get('benign_total', 0)} refactorings silent"
+              f"{'' if selftest.get('tree_is_reference') else ' (tree differs from the reference: failures are inconclusive)'}")
+        if selftest.get("errors"):
+            hard = selftest.get("tree_is_reference") and not new
+            for e in selftest["errors"][:8]:
+                print(f"  {'ANALYSIS-ERROR property=' + pid + ' checker self-test failed:' if hard else 'self-test inconclusive:'} {e}")
+            if hard:
+                rule_errors.append("checker self-test failed")
     wall = time.time() - t0
     if rule_errors and not new:
         # cannot decide and nothing else found: never a pass, never an alarm
